@@ -22,7 +22,8 @@ RULE = ("part included_at: component repo = one release branch, 1-10 commits in 
         "either number may be pinned. Part dependency_graphs: 2-5 repository classes with generated component locations (DAGs "
         "and cyclic graphs, references to repositories that are not supplied) in generated supply order. Non-trivial = a "
         "parent build whose pin crosses >=2 report-related component builds, or a branch forking below a pin change, or a pin "
-        "to a component build without matching commit; distinct by case hash.")
+        "to a component build without matching commit; distinct by case hash."
+        " Also: 0-3 earlier reports on the same collection object; either line of a component merge as first parent.")
 ASSUMPTIONS = [
     "more than 400k (report) / 20k (dependency analysis) Python calls inside ak/ghist.py for these tiny inputs is a divergence (normal runs need a few thousand)",
     "the component has a single branch; the set of report-related component builds is read from the component's own report (its placement rules are C06's property); with merge commits in the parent (part included_at_parent_merges) 'the first build' is read as: every build of the branch that ships the component build while none of its ancestor builds does",
